@@ -851,6 +851,12 @@ func runScenario(c *W3Case, prop string, out *Outcome, wantLog bool, before func
 		}
 		if !c.NoDataset {
 			h := r.createDataset(0, s.nodes[0], c.Partitions, c.Replicas, c.Dim, c.Space, true)
+			// a create gives up by itself after one second; right after five nodes have
+			// joined the cluster's own group can legally be busy for longer than that
+			for attempt := 0; attempt < 10 && h.err != nil && status.Code(h.err) != codes.InvalidArgument; attempt++ {
+				s.runFor(time.Second)
+				h = r.createDataset(0, s.nodes[0], c.Partitions, c.Replicas, c.Dim, c.Space, true)
+			}
 			if h.err != nil {
 				r.viol("dataset-create-failed", "fault-free create failed: %v", h.err)
 				return
